@@ -253,7 +253,7 @@ type binding struct {
 var heavy = map[string]bool{"s2-grid": true, "s2-covering": true, "s2-points": true, "sample-points": true,
 	"sample-points-along-paths": true, "tile-paths": true}
 
-var untameDen = 40
+var untameDen = 60
 
 type Gen struct {
 	tame   int
@@ -434,7 +434,7 @@ func (g *Gen) genFIDProto(ft pb.FeatureType) *pb.FeatureIDProto {
 	if ft == pb.FeatureType_FeatureTypeInvalid || r.Chance(1, 8) {
 		ft = allFeatureTypes[r.Intn(len(allFeatureTypes))]
 	}
-	switch r.Intn(12) {
+	switch r.Intn(30) {
 	case 0: // nothing at all
 		return &pb.FeatureIDProto{}
 	case 1: // a type the enum does not know
@@ -445,7 +445,7 @@ func (g *Gen) genFIDProto(ft pb.FeatureType) *pb.FeatureIDProto {
 		return fidProto(ft, "", uint64(r.Intn(3)))
 	}
 	pick := func(xs []uint64, dflt uint64) uint64 {
-		if len(xs) == 0 || r.Chance(1, 10) {
+		if len(xs) == 0 || r.Chance(1, 20) {
 			return dflt + uint64(r.Intn(5))
 		}
 		return xs[r.Intn(len(xs))]
@@ -487,7 +487,10 @@ func (g *Gen) genQ(depth int) *Q {
 	case 3:
 		return QAll()
 	case 4:
-		return QEmpty()
+		if r.Chance(1, 8) {
+			return QEmpty() // not decodable: the whole request is refused
+		}
+		return QKeyed([]string{"#highway", "#building", "#amenity", "name"}[r.Intn(4)])
 	case 5:
 		if r.Chance(1, 5) {
 			return QCap(nil, g.genFloat())
@@ -503,15 +506,18 @@ func (g *Gen) genQ(depth int) *Q {
 	case 9:
 		return QMultiPolygon(g.genPolygons())
 	case 10:
-		switch r.Intn(4) {
+		switch r.Intn(12) {
 		case 0:
 			return QIsValid()
 		case 1:
 			return QUnset()
-		case 2:
+		case 2, 3, 4:
 			return QCells(g.genCells())
-		default:
+		case 5, 6, 7:
 			return QMight(g.genCells())
+		default:
+			t := tagPool[r.Intn(len(tagPool))]
+			return QTagged(t[0], t[1])
 		}
 	case 11:
 		return QKeyed([]string{"#highway", "#building", "#amenity", "name"}[r.Intn(4)])
@@ -644,7 +650,7 @@ func (g *Gen) leaf(s *srt) *Node {
 		g.use(f.name)
 		return S(f.name)
 	case sAny:
-		switch r.Intn(14) {
+		switch r.Intn(40) {
 		case 0:
 			return Nil()
 		case 1:
@@ -741,7 +747,7 @@ func (g *Gen) collLit(s *srt) *Node {
 			ks[i] = ks[r.Intn(i)]
 		}
 	}
-	if n > 0 && r.Chance(1, 25) {
+	if n > 0 && r.Chance(1, 60) {
 		vs = vs[:n-1] // a client can send this
 	}
 	return Coll(ks, vs)
@@ -882,13 +888,13 @@ func (g *Gen) call(f *fn, env []binding, depth int) *Node {
 		}
 		args = append(args, a)
 	}
-	if len(args) > 0 && r.Chance(1, 14) {
+	if len(args) > 0 && r.Chance(1, 30) {
 		g.note("dropped-arg")
 		args = args[:len(args)-1]
-	} else if r.Chance(1, 30) {
+	} else if r.Chance(1, 50) {
 		g.note("extra-arg")
 		args = append(args, g.expr(&srt{k: sAny}, env, 0))
-	} else if len(args) > 1 && r.Chance(1, 30) {
+	} else if len(args) > 1 && r.Chance(1, 50) {
 		g.note("swapped-args")
 		i := r.Intn(len(args) - 1)
 		args[i], args[i+1] = args[i+1], args[i]
@@ -916,7 +922,7 @@ func (g *Gen) producers(s *srt) []*fn {
 func (g *Gen) expr(s *srt, env []binding, depth int) *Node {
 	r := g.R
 	g.Budget--
-	if r.Chance(1, 14) { // a wrong sort on purpose
+	if r.Chance(1, 30) { // a wrong sort on purpose
 		g.note("wrong-sort")
 		s = &srt{k: sortKind(r.Intn(int(nSorts))), arity: -1, key: &srt{k: sAny}, val: &srt{k: sAny}}
 	}
@@ -924,7 +930,7 @@ func (g *Gen) expr(s *srt, env []binding, depth int) *Node {
 	if len(env) > 0 && r.Chance(1, 3) {
 		var cands []binding
 		for _, b := range env {
-			if b.s.k == s.k || b.s.k == sAny || s.k == sAny || r.Chance(1, 6) {
+			if b.s.k == s.k || b.s.k == sAny || s.k == sAny || r.Chance(1, 12) {
 				cands = append(cands, b)
 			}
 		}
